@@ -248,6 +248,27 @@ class Expr:
             s |= t.free()
         return s
 
+    def subst_scalar(self, name, repl):
+        """Replace the rank-0 factor ``name`` (non-negative powers only) by the
+        expression ``repl``."""
+        repl = as_expr(repl)
+        out = Expr.zero()
+        for t in self.terms:
+            keep = []
+            pw = 0
+            for f in t.factors:
+                if f.name == name and not f.idx:
+                    if f.pow < 0 or f.conj:
+                        raise ValueError("cannot substitute %s in a denominator" % name)
+                    pw += f.pow
+                else:
+                    keep.append(f)
+            e = Expr((Term(t.coeff, keep, t.deltas, t.sums),))
+            for _ in range(pw):
+                e = e * repl
+            out = out + e
+        return out
+
     def names(self):
         return {f.name for t in self.terms for f in t.factors}
 
